@@ -74,10 +74,15 @@ def run(ctx):
         # valid strings only (malformed strings are C14's business and identical across builds anyway)
         runs = {}
         reps = {}
-        for cfg in ("u", "n", "uh", "nh"):
+        from concurrent.futures import ThreadPoolExecutor
+        def prep(cfg):
             r = runner.run_stream(wd, "%s_%s" % (sname, cfg), cfg, ops)
+            return cfg, r, runner.check_stream(r)
+        with ThreadPoolExecutor(max_workers=4) as ex:
+            done = list(ex.map(prep, ("u", "n", "uh", "nh")))
+        for cfg, r, rep in done:
             runs[cfg] = r
-            reps[cfg] = runner.check_stream(r)
+            reps[cfg] = rep
             st = reps[cfg]["stat"]
             ctx.cov["evaluations"] += int(st.get("ops", 0))
             ctx.cov["distinct_nontrivial"] += int(st.get("statechanges", 0))
